@@ -10,7 +10,8 @@ ID = "C17"
 THEOREMS = ["C17_combine", "C17_combine_sorted", "C17_filter", "C17_next_use", "C17_buffet_binding",
             "C17_schedule_interleaves", "C17_buffet_run_binding", "C17_buffet_machine",
             "C17_buffet_fills_writebacks", "C17_bounds", "C17_line_granular", "C17_cache_machine",
-            "C17_schedule_is_sort", "C17_sort_binds", "C17_cache_refines_min", "C17_cache_tie_refuted",
+            "C17_schedule_is_sort", "C17_sort_binds", "C17_cache_refines_min", "C17_policy_bounds",
+            "C17_cache_bounds", "C17_monotone", "C17_cache_tie_refuted",
             "C17_model_meets_spec", "C17_model_meets_spec_cache", "C17_model_meets_spec_no_cache"]
 COQ_IMPORTS = "From FT Require Import Model.Base Model.Obs Model.C17Traffic Model.C17Check."
 CHECK_VO = ["Model/C17Check.v"]
@@ -32,8 +33,8 @@ TRUSTED = ["Coq 8.16.1 kernel (coqc; coqchk in the thorough tier); vm_compute us
            "row lists), tied to the working tree by the differential correspondence check of this run",
            "harness: harness/check.py, harness/props/c17.py, harness/c17_util.py (writes the CSV traces, builds "
            "Format objects, lists the temporary directory before/after), CPython 3.12",
-           "the bounds and the monotonicity in capacity of the replacement policy min_run (properties of the "
-           "specification, not of the code) are decided by the Coq-defined oracle on the implementation's and the "
+           "the monotonicity in capacity of the replacement policy min_run over a case's capacities (a property of the "
+           "specification, not of the code; proved without staging pins as C17_monotone) is decided by the Coq-defined oracle on the implementation's and the "
            "model's outputs of this run, not by a universally quantified theorem; every other clause of the oracle "
            "is proved for the model outside region 1 (C17_model_meets_spec, C17_cache_refines_min)"]
 ASSUMPTIONS = ["trace files are well formed: rows of the rank's depth, non-negative integers, stamps non-decreasing",
@@ -45,10 +46,12 @@ EXPLANATION = ("theorems: combine = stable sort; filter = membership filter; nex
                "drain) = (line, window) first-occurrence counts, lifted to the per-tensor observation "
                "(C17_buffet_fills_writebacks); cache state machine refines the furthest-next-use-with-bypass policy "
                "(C17_cache_machine) and, outside region 1, the model's per-tensor read bits equal the oracle's "
-               "min_run on its own merged sequence and the run never raises (C17_cache_refines_min); bounds; line "
-               "granularity; C17_model_meets_spec: outside region 1 the model meets every oracle clause given the two "
-               "clauses about the policy itself (bounds, monotone in capacity), which stay oracle-checked on every "
-               "case; refuted under stamp ties (region 1, known finding)")
+               "min_run on its own merged sequence and the run never raises (C17_cache_refines_min); bounds of the "
+               "policy (cold misses <= fills <= reads) for the policy and per tensor on the model "
+               "(C17_policy_bounds, C17_cache_bounds); C17_monotone: fills of the policy never increase with the "
+               "capacity for schedules without staging pins; line granularity; C17_model_meets_spec: outside "
+               "region 1 the model meets every oracle clause given the monotonicity over the case's capacities, "
+               "which stays oracle-checked on every case; refuted under stamp ties (region 1, known finding)")
 
 
 # ------------------------------------------------------------------ generator
